@@ -25,6 +25,7 @@ import (
 
 	"verif/explore"
 	"verif/gen"
+	"verif/refcff"
 	"verif/refshape"
 	"verif/run"
 )
@@ -137,7 +138,18 @@ func c10Font(c *explore.Ctx) (*sfnt.Font, string) {
 	lig1 := func(first, second, out glyph.ID) *gtab.LookupTable {
 		return gen.MakeLookup(4, gen.Flags[0], []gtab.Subtable{&gtab.Gsub4_1{Cov: coverage.Table{first: 0}, Repl: [][]gtab.Ligature{{{In: []glyph.ID{second}, Out: out}}}}})
 	}
-	switch c.Choose(6, "gsub") {
+	gsubOpt := c.Choose(8, "gsub")
+	switch gsubOpt {
+	case 6, 7:
+		// one ligature set whose rules share a prefix: the order of the rules is part of their meaning
+		// (the first rule that matches wins, so a shorter rule in front shadows the longer one)
+		rules := []gtab.Ligature{{In: []glyph.ID{4}, Out: 5}, {In: []glyph.ID{4, 1}, Out: 2}}
+		desc += ", GSUB 4.1 one set: f+i->fi before f+i+A->B"
+		if gsubOpt == 7 {
+			rules[0], rules[1] = rules[1], rules[0]
+			desc += " (reversed)"
+		}
+		f.Gsub = gsubInfo("liga", gen.MakeLookup(4, gen.Flags[0], []gtab.Subtable{&gtab.Gsub4_1{Cov: coverage.Table{3: 0}, Repl: [][]gtab.Ligature{rules}}}))
 	case 1:
 		f.Gsub = gsubInfo("ss01", gen.MakeLookup(1, gen.Flags[0], []gtab.Subtable{&gtab.Gsub1_1{Cov: coverage.Set{1: true, 3: true}, Delta: 1}}))
 		desc += ", GSUB 1.1 {1,3}+1"
@@ -633,10 +645,101 @@ func c10Repeat(r *run.Run) {
 
 var c10FontChoices []int
 
+// c10SubsetSizes: whether a written subset sits on a size threshold of the file format depends only on
+// which glyphs are retained; subsets whose String INDEX (glyph names and font information strings) is
+// 252..258 bytes long are written and read back.
+func c10SubsetSizes(r *run.Run) {
+	lists := [][]glyph.ID{{0}, {0, 1}, {0, 3, 5}, {0, 5, 4, 3, 2, 1}}
+	mk := func(kind, copyright int) *sfnt.Font {
+		f, _ := FontFromChoices(gen.FontOpts{NoMeta: true, NoLayout: true}, kind, 2, 0, 0, 1)
+		o := *f.Outlines.(*cff.Outlines)
+		o.Glyphs = append([]*cff.Glyph{}, o.Glyphs...)
+		if !o.IsCIDKeyed() {
+			for i := 1; i < len(o.Glyphs); i++ {
+				g := *o.Glyphs[i]
+				g.Name = "n" + strings.Repeat("x", i)
+				o.Glyphs[i] = &g
+			}
+			o.Encoding = cff.StandardEncoding(o.Glyphs)
+		}
+		f.Outlines = &o
+		b := make([]byte, copyright)
+		for i := range b {
+			b[i] = "Abc dEf, "[i%9]
+		}
+		f.Copyright = string(b)
+		return f
+	}
+	stringBytes := func(f *sfnt.Font) (int, error) {
+		buf := &bytes.Buffer{}
+		if err := f.AsCFF().Write(buf); err != nil {
+			return 0, err
+		}
+		rf, err := refcff.Parse(buf.Bytes())
+		if err != nil {
+			return 0, err
+		}
+		n := 0
+		for _, s := range rf.Strings {
+			n += len(s)
+		}
+		return n, nil
+	}
+	r.Explore(explore.Config{Name: "C10.subset-sizes"},
+		"subsets of simple and CID-keyed CFF fonts (4 glyph lists) whose String INDEX data is exactly 252..258 bytes long (the copyright string is sized accordingly, measured with the independent CFF reader; the 64 KiB threshold is not reachable through a font: the name table limits the string to 32767 UTF-16 units): the subset is written, read back and equals the subset in memory (glyph count, names, widths, outlines)",
+		func(c *explore.Ctx) {
+			kind := 1 + c.Choose(2, "outline kind")
+			list := lists[c.Choose(len(lists), "glyph list")]
+			target := 255 - 3 + c.Choose(7, "String INDEX size")
+			// a 100-byte copyright first: its length does not change which other strings are stored
+			probe := mk(kind, 100).Subset(list)
+			base, err := stringBytes(probe)
+			if err != nil {
+				c.Fail("C10.write", "subset sizes", "the subset cannot be written / walked: %v (list %v)", err, list)
+				return
+			}
+			need := target - (base - 100)
+			if need < 1 {
+				c.Skip("the strings of the subset are longer than the target without any copyright")
+			}
+			f := mk(kind, need)
+			sub := f.Subset(list)
+			desc := fmt.Sprintf("%s, list %v, String INDEX data %d bytes", gen.KindNames[kind], list, target)
+			c.Sample(func() any { return desc })
+			c.Outcome(desc)
+			if got, err := stringBytes(sub); err == nil && got == target {
+				c.Nontrivial()
+			}
+			buf := &bytes.Buffer{}
+			if _, err := sub.Write(buf); err != nil {
+				c.Fail("C10.write", "subset sizes", "the subset cannot be written: %v; %s", err, desc)
+				return
+			}
+			back, err := sfnt.Read(bytes.NewReader(buf.Bytes()))
+			if err != nil {
+				c.Fail("C10.reread", "subset sizes", "the written subset cannot be read: %v; %s", err, desc)
+				return
+			}
+			if back.NumGlyphs() != sub.NumGlyphs() || back.Copyright != sub.Copyright {
+				c.Fail("C10.reread", "subset sizes", "the re-read subset has %d glyphs and a %d-byte copyright, in memory %d and %d; %s", back.NumGlyphs(), len(back.Copyright), sub.NumGlyphs(), len(sub.Copyright), desc)
+				return
+			}
+			bo, so := back.Outlines.(*cff.Outlines), sub.Outlines.(*cff.Outlines)
+			for i := 0; i < sub.NumGlyphs(); i++ {
+				gi := glyph.ID(i)
+				if back.GlyphWidth(gi) != sub.GlyphWidth(gi) || back.GlyphName(gi) != sub.GlyphName(gi) || !reflect.DeepEqual(bo.Glyphs[i].Cmds, so.Glyphs[i].Cmds) {
+					c.Fail("C10.reread", "subset sizes glyph", "glyph %d of the re-read subset (%q, width %v) differs from the subset in memory (%q, width %v); %s", i, back.GlyphName(gi), back.GlyphWidth(gi), sub.GlyphName(gi), sub.GlyphWidth(gi), desc)
+					return
+				}
+			}
+		})
+}
+
 func init() {
 	Register("C10", func(r *run.Run) {
 		r.Rule = "bounded exhaustive enumeration of 6-glyph fonts x all duplicate-free glyph lists; oracle through the index map (unique advance widths identify original glyphs); closure = least fixed point of composite components and substitution outputs, computed independently; semantic preservation of rules via the reference shaper on all sequences of <= 3 retained glyphs (listed and appended)"
 		r.Assume = []string{"only layout data the subsetter declares supported: GSUB 1.1 / 4.1, GPOS 2.1, no GDEF", "characters mapping to glyphs that were appended by the closure may or may not be mapped"}
+		c10SubsetSizes(r)
 		c10Subset(r)
 		c10Repeat(r)
 		c10MapOrder(r)
